@@ -99,7 +99,7 @@ LAYOUTS = {0: ["contig", "elem"], 1: ["contig", "contig", "step2", "rev"],
 
 def base_shape(shape, layout):
     shape = list(shape)
-    if layout == "contig" or layout == "rev":
+    if layout in ("contig", "rev", "unaligned"):
         return shape
     if layout == "elem":
         return [3]
@@ -142,6 +142,8 @@ def plain_cases(draw):
     base = draw(st.sampled_from(PLAIN_BASES))
     spell = draw(st.sampled_from(["<", ">", ">", "=", "|"]))
     shape, layout = draw(_shape_layout())
+    if layout == "contig" and draw(st.integers(0, 5)) == 0:
+        layout = "unaligned"      # contiguous data starting at an odd address (a field of a packed record, a buffer slice)
     return {"base": base, "spell": spell, "shape": shape, "layout": layout, "seed": draw(sa.seeds),
             "func": draw(st.sampled_from(FUNCS)), "inplace": draw(st.booleans()),
             "keep_dtype": draw(st.booleans()),
@@ -167,6 +169,7 @@ def struct_cases(draw):
                 fields[-1][2] = draw(st.sampled_from(["<", ">"]))
     shape, layout = draw(_shape_layout())
     return {"fields": fields, "shape": shape, "layout": layout, "seed": draw(sa.seeds),
+            "pad": draw(st.sampled_from([None, None, None, None, "aligned", "gap"])),
             "func": draw(st.sampled_from(FUNCS)), "inplace": draw(st.booleans()),
             "keep_dtype": draw(st.booleans()),
             "cls": draw(st.sampled_from(["ndarray", "ndarray", "ndarray", "recarray", "subclass"]))}
@@ -191,8 +194,17 @@ def _build(case):
         fields = case["fields"]
         base = sa.make_array(fields, bshape, case["seed"])
         cur = _table_order(fields)
+        if case.get("pad"):
+            base = _padded(base, case["pad"])
     else:
         fields = None
+        if layout == "unaligned":
+            vals = sa.make_plain(case["base"], case["spell"], shape, case["seed"])
+            buf = np.zeros(vals.nbytes + 1, dtype="u1")
+            buf[1:] = np.frombuffer(vals.tobytes(), dtype="u1")
+            base = buf[1:].view(vals.dtype).reshape(vals.shape)
+            cur = _resolve(case["spell"]) if sa.is_multibyte(case["base"]) else None
+            return base, base, np.ones(tuple(shape), dtype=bool), None, cur
         base = sa.make_plain(case["base"], case["spell"], bshape, case["seed"])
         cur = _resolve(case["spell"]) if sa.is_multibyte(case["base"]) else None
     view = take_view(base, shape, layout)
@@ -202,9 +214,50 @@ def _build(case):
     return base, view, mask, fields, cur
 
 
-def _expected_dtype(case, fields, order):
+def _padded(a, how):
+    """The records of packed array `a` in a dtype with padding: numpy's aligned layout, or the layout of a
+    multi-field view (a gap after the first field and unused bytes at the end).  Padding bytes hold 0xAB."""
+    dt = a.dtype
+    if how == "aligned":
+        pdt = np.dtype(dt.descr, align=True)
+    else:
+        offs, off = [], 0
+        for i, n in enumerate(dt.names):
+            offs.append(off)
+            off += dt[n].itemsize + (3 if i == 0 else 0)
+        pdt = np.dtype({"names": list(dt.names), "formats": [dt[n] for n in dt.names], "offsets": offs,
+                        "itemsize": off + 5})
+    out = np.frombuffer(bytearray(b"\xab" * (pdt.itemsize * max(1, a.size))), dtype=pdt)[:a.size if a.ndim else 1]
+    out = out.reshape(a.shape)
+    for n in dt.names:
+        out[n] = a[n]
+    return out
+
+
+def _has_padding(dt):
+    return dt.names is not None and dt.itemsize != sum(dt[n].itemsize for n in dt.names)
+
+
+def _packed(a):
+    """`a` with padding removed (same field types and byte orders): what the byte-level comparisons look at."""
+    a = np.asarray(a)
+    if not _has_padding(a.dtype):
+        return a
+    out = np.zeros(a.shape, dtype=[(n, a.dtype[n]) for n in a.dtype.names])
+    for n in a.dtype.names:
+        out[n] = a[n]
+    return out
+
+
+def _expected_dtype(case, fields, order, like=None):
     if fields is not None:
-        return sa.make_dtype(_with_order(fields, order))
+        packed = sa.make_dtype(_with_order(fields, order))
+        if like is not None and _has_padding(like):
+            # same offsets and itemsize as the input, every field in the requested order
+            return np.dtype({"names": list(like.names), "formats": [packed[n] for n in like.names],
+                             "offsets": [like.fields[n][1] for n in like.names], "itemsize": like.itemsize,
+                             "aligned": like.isalignedstruct})
+        return packed
     return np.dtype(sa.typestr(case["base"], order))
 
 
@@ -244,8 +297,8 @@ def check_convert(case, ctx):
         (0, np.dtype(sa.typestr(case["base"], "<")).itemsize, _swap_unit(case["base"]))]
 
     in_dtype = np.dtype(arr.dtype)          # dtype objects are immutable; keep the original
-    in_bytes = np.ascontiguousarray(arr).tobytes()
-    in_native = sa.native_bytes(arr)
+    in_bytes = np.ascontiguousarray(_packed(arr)).tobytes()
+    in_native = sa.native_bytes(_packed(arr))
     in_shape = arr.shape
     base_raw = _raw_items(base)
 
@@ -256,8 +309,8 @@ def check_convert(case, ctx):
     else:
         target = TARGET[func]
         need = cur != target
-    exp_bytes = swapped_bytes(arr, layout) if need else in_bytes
-    exp_dtype = in_dtype if (keep or cur is None) else _expected_dtype(case, fields, target)
+    exp_bytes = swapped_bytes(_packed(arr), layout) if need else in_bytes
+    exp_dtype = in_dtype if (keep or cur is None) else _expected_dtype(case, fields, target, like=in_dtype)
 
     res = must(f, arr, inplace=inplace, keep_dtype=keep)
 
@@ -271,10 +324,10 @@ def check_convert(case, ctx):
         require(_declared_orders(res.dtype) == {target},
                 "%s: declared byte order of the result is %r, requested %r (dtype %s)", func,
                 sorted(_declared_orders(res.dtype)), target, res.dtype)
-        require(sa.native_bytes(res) == in_native,
+        require(sa.native_bytes(_packed(res)) == in_native,
                 "%s(inplace=%s) changed element values: input dtype %s, result dtype %s", func, inplace,
                 in_dtype, res.dtype)
-    got = np.ascontiguousarray(res).tobytes()
+    got = np.ascontiguousarray(_packed(res)).tobytes()
     require(got == exp_bytes,
             "%s(inplace=%s, keep_dtype=%s) on %s: result bytes are %s, expected the %s bytes", func,
             inplace, keep, in_dtype, "wrong", "swapped" if need else "unchanged")
@@ -298,12 +351,12 @@ def check_convert(case, ctx):
     # idempotence / involution, always on copies
     if func == "byteswap":
         back = must(f, res, inplace=False, keep_dtype=keep)
-        require(back.dtype == in_dtype and np.ascontiguousarray(back).tobytes() == in_bytes,
+        require(back.dtype == in_dtype and np.ascontiguousarray(_packed(back)).tobytes() == in_bytes,
                 "byteswap twice does not restore the original (dtype %s -> %s -> %s)", in_dtype,
                 res.dtype, back.dtype)
     elif not keep:
         again = must(f, res, inplace=False, keep_dtype=False)
-        require(again.dtype == res.dtype and np.ascontiguousarray(again).tobytes() == got,
+        require(again.dtype == res.dtype and np.ascontiguousarray(_packed(again)).tobytes() == got,
                 "%s is not idempotent: dtype %s -> %s -> %s", func, in_dtype, res.dtype, again.dtype)
         require(not np.shares_memory(again, res), "%s(inplace=False) on converted data is not a copy", func)
 
@@ -324,6 +377,8 @@ def classify_convert(case):
             labs.append("no-multibyte-field")
         if sa.has_subarray(fields):
             labs.append("subarray-field")
+        if case.get("pad"):
+            labs.append("dtype-with-padding:" + case["pad"])
     else:
         labs.append("base:" + case["base"])
         labs.append("spell:" + case["spell"])
@@ -455,8 +510,11 @@ def rf_native_cases(draw):
         base = draw(st.sampled_from(PLAIN_BASES))
         case = {"base": base, "spell": draw(st.sampled_from(["<", ">", ">", "=", "|"]))}
     else:
-        case = {"fields": draw(struct_cases())["fields"]}
+        sc = draw(struct_cases())
+        case = {"fields": sc["fields"], "pad": sc["pad"]}
     shape, layout = draw(_shape_layout())
+    if "base" in case and layout == "contig" and draw(st.integers(0, 5)) == 0:
+        layout = "unaligned"
     case.update(shape=shape, layout=layout, seed=draw(sa.seeds))
     return case
 
@@ -467,18 +525,18 @@ def check_rf_native(case, ctx):
     layout = _field_layout(fields) if fields is not None else [
         (0, np.dtype(sa.typestr(case["base"], "<")).itemsize, _swap_unit(case["base"]))]
     in_dtype = np.dtype(arr.dtype)
-    in_bytes = np.ascontiguousarray(arr).tobytes()
-    in_native = sa.native_bytes(arr)
+    in_bytes = np.ascontiguousarray(_packed(arr)).tobytes()
+    in_native = sa.native_bytes(_packed(arr))
     base_raw = _raw_items(base)
     need = cur is not None and cur != sa.NATIVE
-    exp_bytes = swapped_bytes(arr, layout) if need else in_bytes
-    exp_dtype = in_dtype if cur is None else _expected_dtype(case, fields, sa.NATIVE)
+    exp_bytes = swapped_bytes(_packed(arr), layout) if need else in_bytes
+    exp_dtype = in_dtype if cur is None else _expected_dtype(case, fields, sa.NATIVE, like=in_dtype)
     must(ru.to_native_inplace, arr)
-    require(arr.dtype == exp_dtype, "to_native_inplace on %s left dtype %s, expected %s", in_dtype,
-            arr.dtype, exp_dtype)
-    require(np.ascontiguousarray(arr).tobytes() == exp_bytes,
+    require(arr.dtype == exp_dtype and arr.dtype.names == in_dtype.names,
+            "to_native_inplace on %s left dtype %s, expected %s", in_dtype, arr.dtype, exp_dtype)
+    require(np.ascontiguousarray(_packed(arr)).tobytes() == exp_bytes,
             "to_native_inplace on %s: bytes are not the %s bytes", in_dtype, "swapped" if need else "original")
-    require(sa.native_bytes(arr) == in_native, "to_native_inplace on %s changed element values", in_dtype)
+    require(sa.native_bytes(_packed(arr)) == in_native, "to_native_inplace on %s changed element values", in_dtype)
     require(np.array_equal(_raw_items(base)[~mask], base_raw[~mask]),
             "to_native_inplace on a view modified elements outside the view")
 
